@@ -34,6 +34,13 @@ def scenarios(tier):
     sc += [("sync-adds-prehash", Config(levels=1, ndisks=2), base + adds, ("sync", "-h"))]
     sc += [("sync-adds-rehash", Config(levels=1, ndisks=2), base + [("cmd", "rehash")] + adds, ("sync",)),
            ("scrub-rehash", Config(levels=1, ndisks=2), base + adds + [("cmd", "sync"), ("cmd", "rehash")], ("scrub", "-p", "full"))]
+    # stripes ALREADY marked bad by an earlier scrub that met an I/O error on the parity (a standing bad sector): the recommended
+    # follow-up (scrub -p bad, or the next full scrub) meets the error again
+    sc += [("scrub-bad-marked", Config(levels=1, ndisks=2), base + adds + [("cmd", "sync"), ("cmd-eio", "p0/*", 2, "scrub", "-p", "full")],
+            ("scrub", "-p", "bad")),
+           ("scrub-bad-marked", Config(levels=2, ndisks=2), base + adds + [("cmd", "sync"), ("cmd-eio", "p1/*", 1, "scrub", "-p", "full"),
+                                                                           ("cmd-eio", "d1/N", 0, "scrub", "-p", "full")],
+            ("scrub", "-p", "full"))]
     if True:
         sc += [("sync-adds", Config(levels=3, ndisks=3), base + [("write", "d3", "anchor", 700, 0)] + adds, ("sync",)),
                ("scrub", Config(levels=1, ndisks=2), base + adds + [("cmd", "sync")], ("scrub", "-p", "full"))]
@@ -226,9 +233,11 @@ def run(ctx):
             with labmod.Lab(cfg, seed=ctx.seed) as L0:
                 for op in ops:
                     r = X.apply_op(L0, op)
-                    if r is not None and r.rc != 0:
+                    if r is not None and r.rc != 0 and op[0] != "cmd-eio":
                         raise RuntimeError("base failed %r\n%s" % (op, r.text()))
                 saved = L0.save()
+                if name == "scrub-bad-marked" and not any(i is not None and i[1] for i in L0.content().info):
+                    raise RuntimeError("scrub-bad-marked: the preparation left no bad mark")
                 r = run_cmd(L0, cmd, cache, env={"VP_TRACE_READS": "1"})
                 if r.rc != 0 and not name.endswith("-fileerror"):
                     raise RuntimeError("reference run failed\n" + r.text())
